@@ -1,7 +1,21 @@
 import U3.Drive.Headers
+import U3.Drive.Hostname
+import U3.Drive.Lru
 import U3.Drive.Multipart
+import U3.Drive.PoolKey
+import U3.Drive.Retry
+import U3.Drive.Timeout
+import U3.Drive.Url
+import U3.Drive.Wire
 def main (args : List String) : IO UInt32 := do
   match args with
   | ["hd"] => U3.Drive.Headers.main; return 0
+  | ["hostname"] => U3.Drive.Hostname.main; return 0
+  | ["lru"] => U3.Drive.Lru.main; return 0
   | ["multipart"] => U3.Drive.Multipart.main; return 0
+  | ["poolkey"] => U3.Drive.PoolKey.main; return 0
+  | ["retry"] => U3.Drive.Retry.main; return 0
+  | ["timeout"] => U3.Drive.Timeout.main; return 0
+  | ["url"] => U3.Drive.Url.main; return 0
+  | ["wire"] => U3.Drive.Wire.main; return 0
   | _ => IO.eprintln "usage: u3model <model>"; return 2
